@@ -187,7 +187,7 @@ func (h *Handle) decide(op, class, task string) string {
 	w := h.W
 	w.Calls[op]++
 	for _, f := range w.Plan {
-		if f.fired || f.Op != op {
+		if f.fired || !(f.Op == op || (f.Op == "anydel" && (op == "del" || op == "delcur"))) {
 			continue
 		}
 		if f.Class != "" && f.Class != class {
@@ -361,7 +361,7 @@ func (h *Handle) Del(ctx context.Context, key []byte) error {
 	e.Fault = eff
 	var err error
 	switch eff {
-	case "err", "uncertain-lost":
+	case "err", "uncertain-lost", "cas":
 		err = ErrInjected
 		if eff == "uncertain-lost" {
 			err = uncertainErr()
